@@ -21,7 +21,9 @@ struct Ledger {
   std::vector<std::string> errors;
   bool fail_next = false;  // (unused by default) allocation failure injection
   void reset() {
-    // forget everything (blocks still live are leaked on purpose only by the caller's choice)
+    // forget everything; blocks that a previous (failing) case left behind are released for real so that they do not
+    // show up as leaks of a later case
+    for (auto& kv : live) std::free(kv.first);
     live.clear();
     errors.clear();
     serial = n_alloc = n_free = bytes_live = 0;
